@@ -313,6 +313,21 @@ def ctor_cases(res):
             res.evaluations += 1
             if len(b) != 8 or b.as_integer != v or b.error != (cls is frame.BackwardFrameError):
                 res.violation("C05/ctor/backward", "backward frame wrong", {"v": v, "cls": cls.__name__})
+    # equality is width + bits, whatever class carries them; == and != always disagree
+    for v in range(256):
+        objs = [frame.Frame(8, v), frame.ForwardFrame(8, v), frame.BackwardFrame(v), frame.BackwardFrameError(v)]
+        others = [frame.Frame(8, v ^ 0x10), frame.BackwardFrameError(v ^ 1), frame.Frame(9, v)]
+        for a in objs:
+            for b in objs + others:
+                res.evaluations += 1
+                res.add("class_crossing_comparisons")
+                want = b in objs
+                eq, ne = (a == b), (a != b)
+                if eq is not want or ne is not (not want):
+                    res.violation("C05/cmp/across-classes",
+                                  f"{type(a).__name__}(8 bits, {v:#x}) vs {type(b).__name__}({len(b)} bits, {b.as_integer:#x}): "
+                                  f"== gives {eq!r}, != gives {ne!r}; equality means same width and same bits",
+                                  {"a": type(a).__name__, "b": type(b).__name__, "v": v})
     for v in (256, -1):
         try:
             frame.BackwardFrame(v)
